@@ -75,6 +75,11 @@ def tasks(tier):
         cfg = dict(M=3, alphabet=["ok", "x:T", "r:T"], handler="call", handler_menu=[ans],
                    timeline=True, operation="opname", max_unknown=None)
         out.append({"family": "stream-string-answer", "cfg": cfg, "entry": e, "bound": 0})
+    # one very long run: every sink still sees every event
+    for e in RETRY_ENTRIES[:2] + POLICY_ENTRIES[:2]:
+        cfg = dict(M=140, alphabet=["x:T"], timeline=True, operation="opname", max_unknown=None,
+                   strat_menu=[0])
+        out.append({"family": "stream-long-run", "cfg": cfg, "entry": e, "bound": 0})
     # only one of the sinks attached (the timeline must not depend on a metric hook)
     for metric, log in [(False, True), (True, False), (False, False)]:
         cfg = dict(M=3, alphabet=ALPHA, abort=True, handler="call", timeline=True, metric=metric,
